@@ -99,6 +99,11 @@ def check(run, prog):
             ck.unk("R3", fi.where, f"complex input ({dt})", "is refused with ValueError", str(e))
     # ------------------------------------------------------------------ R4 factor agreement with the readers
     reader_factor_agreement(ck, prog, "R4")
+    # the FFT routines work on (views of) the caller's data: they must never be given permission to overwrite their operand
+    from ..structural import overwrite_report
+    overwrite_report(ck, prog, "R1")
+    from ..structural import hooks_report
+    hooks_report(ck, prog, "R1")
     run.extra["decided_by"] = ck.how
 
 
